@@ -75,6 +75,9 @@ def real_eval(payload):
             N, sfx = c["N"], c["suffix"]
             positive = c["loss"] == "cash_loss"
             data, rms, psf = U.make_images(rng, N, positive=positive)
+            # physical flux units: the same scene in units where data, rms, fluxes and sky are ~1e-6
+            unit = 1e-6 if (c["kind"] == "single" and not positive and c["seed"] % 5 == 2) else 1.0
+            data, rms = data * unit, rms * unit
             if positive and c["seed"] % 2:
                 # the Cash statistic needs a positive model, not positive data (background-subtracted counts): shift part of the image below 0
                 data = data - 0.6 * float(np.median(data))
@@ -87,8 +90,8 @@ def real_eval(payload):
             Rcls = U.RENDERERS[c["renderer"]]
             loss = getattr(U.L, c["loss"])
             if c["kind"] == "single":
-                prior = U.source_prior(c["types"][0], sky_type=sky, suffix=sfx, xc=N / 2 + 0.3, yc=N / 2 - 0.2, flux=80.0, r_eff=1.8,
-                                       sky_guess=3.0 if positive else 0.4)
+                prior = U.source_prior(c["types"][0], sky_type=sky, suffix=sfx, xc=N / 2 + 0.3, yc=N / 2 - 0.2, flux=80.0 * unit, r_eff=1.8,
+                                       sky_guess=(3.0 if positive else 0.4) * unit)
                 requests = {}
                 if c.get("custom"):
                     prior.set_truncated_gaussian_prior("flux", 60.0, 45.0, low=0.0)
